@@ -28,6 +28,11 @@ def build(rq):
     if rq.get('form') == 'pop':
         return build_pop(rq, op)
     ops = [op]
+    if df == 'undeclared_var_declared_by_sibling_op':
+        # a second, independent operator of the same node uses `a`, which only the first operator declares
+        ops = [op, OperatorTemplate('op2', equations=["w' = -a*w"], variables={'w': 'output(1.0)'})]
+    if df == 'undeclared_var_declared_by_later_sibling_op':
+        ops = [OperatorTemplate('op0', equations=["w' = -a*w"], variables={'w': 'output(1.0)'}), op]
     if df == 'cyclic_ops':
         oa = OperatorTemplate('oa', equations=["m = n + 1.0"], variables={'m': 'output(0.0)', 'n': 'input(0.0)'})
         ob = OperatorTemplate('ob', equations=["n = 2.0*m"], variables={'n': 'output(0.0)', 'm': 'input(0.0)'})
@@ -49,6 +54,8 @@ def build(rq):
     if rq['delay'] == 'mixed':      # a plain discrete delay and a distributed delay in one network
         edges = [('n1/op/x', 'n2/op/u', None, {'weight': 3.0, 'delay': 0.004}),
                  ('n2/op/x', 'n1/op/u', None, {'weight': 1.0, 'delay': 0.004, 'spread': 0.002})]
+    if 'sibling_op' in df:          # no edge: the sibling operators stay in one layer of the operator graph on every node
+        edges = []
     if rq['delay'] == 'mixed2':     # the distributed delay is processed first
         edges = [('n1/op/x', 'n2/op/u', None, {'weight': 1.0, 'delay': 0.004, 'spread': 0.002}),
                  ('n2/op/x', 'n1/op/u', None, {'weight': 3.0, 'delay': 0.004})]
